@@ -194,6 +194,8 @@ impl Mon {
             Ev::DisableC1 => pending_cfg = Some((sent.unwrap()[0] & 0x0F, false, [true, false, false])),
             Ev::EnableAll => pending_cfg = Some((sent.unwrap()[0] & 0x0F, true, [true, true, true])),
             Ev::EnableC1 => pending_cfg = Some((sent.unwrap()[0] & 0x0F, true, [true, false, false])),
+            Ev::EnableOnly(k) => pending_cfg = Some((sent.unwrap()[0] & 0x0F, true, [*k == 1, *k == 2, *k == 3])),
+            Ev::DisableOnly(k) => pending_cfg = Some((sent.unwrap()[0] & 0x0F, false, [*k == 1, *k == 2, *k == 3])),
             Ev::Read(..) | Ev::ReadClass0 | Ev::ReadBinaryEvents => read_now = Some(sent.unwrap()[0] & 0x0F),
             Ev::Other => {}
             Ev::Reconnect | Ev::Replace => {
@@ -206,7 +208,7 @@ impl Mon {
         }
         let is_request = matches!(
             ev,
-            Ev::Disable | Ev::DisableC1 | Ev::EnableAll | Ev::EnableC1 | Ev::Other | Ev::Read(..) | Ev::ReadClass0 | Ev::ReadBinaryEvents
+            Ev::Disable | Ev::DisableC1 | Ev::EnableAll | Ev::EnableC1 | Ev::EnableOnly(_) | Ev::DisableOnly(_) | Ev::Other | Ev::Read(..) | Ev::ReadClass0 | Ev::ReadBinaryEvents
         );
         if is_request {
             let seq = sent.unwrap()[0] & 0x0F;
@@ -512,7 +514,34 @@ fn scenarios(tier: &str) -> Vec<C14> {
         inner: C03 { name: name.to_string(), alphabet: alphabet(rd, reconnect), depth, unsol: true, buf: 5, cto: false, retries },
         rd,
     };
+    // every class on its own: enable / disable exactly class 1, 2 or 3, updates in all three
+    let classes = C14 {
+        inner: C03 {
+            name: "classes-d5-rd5000-retries0".to_string(),
+            alphabet: vec![
+                Ev::UnsConfirm(true),
+                Ev::EnableC1,
+                Ev::EnableOnly(2),
+                Ev::EnableOnly(3),
+                Ev::EnableAll,
+                Ev::DisableC1,
+                Ev::DisableOnly(2),
+                Ev::DisableOnly(3),
+                Ev::Upd(Pt::B0),
+                Ev::Upd(Pt::B1),
+                Ev::Upd(Pt::C0),
+                Ev::Adv(TO),
+            ],
+            depth: 5,
+            unsol: true,
+            buf: 5,
+            cto: false,
+            retries: Some(0),
+        },
+        rd: 5000,
+    };
     let mut v = vec![
+        classes,
         mk("d5-rd5000-retries0", 5, 5000, Some(0), false),
         mk("d5-rd5000-retries1", 5, 5000, Some(1), false),
         mk("d4-rd2000-retries1", 4, 2000, Some(1), true),
